@@ -246,7 +246,13 @@ func HarnessC37Getter() {
 	var requested [zzvPoolN]bool
 	nreq := 0
 	for i := range keys {
-		j := verifrt.NondetRange("key", 0, zzvPoolN-1)
+		// canonical labelling (the pool members are interchangeable): the next key is one already requested
+		// or the next unused pool member
+		hi := nreq
+		if hi > zzvPoolN-1 {
+			hi = zzvPoolN - 1
+		}
+		j := verifrt.NondetRange("key", 0, hi)
 		keys[i] = pool[j]
 		if !requested[j] {
 			nreq++
